@@ -1,6 +1,7 @@
 package gen
 
 import (
+	"encoding/json"
 	"fmt"
 	"strconv"
 	"strings"
@@ -69,6 +70,7 @@ type PayloadOpts struct {
 	UnknownPerTen  int // chance that an unknown field is injected
 	IllRelPerTen   int // chance that a relationship's data has the wrong shape
 	AllFieldsOften bool
+	Canonical      bool // attribute literals are what encoding/json writes for a generated value
 }
 
 // ResourcePayload draws the JSON text of a resource object for the type, with
@@ -86,7 +88,20 @@ func ResourcePayload(t *rapid.T, ts *TypeSpec, o PayloadOpts) *PayloadCase {
 			continue
 		}
 
-		l := AnyLit(t, a, "lit-"+a.Name, o.IllPerTen)
+		var l Lit
+
+		if o.Canonical {
+			v := Value(t, a, "val-"+a.Name)
+			b, err := json.Marshal(v)
+
+			if err != nil {
+				panic(err)
+			}
+
+			l = Lit{Text: string(b), Spelling: "canonical", Canonical: true}
+		} else {
+			l = AnyLit(t, a, "lit-"+a.Name, o.IllPerTen)
+		}
 		p.Attrs[a.Name] = l
 		attrParts = append(attrParts, QuoteJSON(a.Name)+":"+l.Text)
 	}
